@@ -23,7 +23,7 @@ Definition p_rest (p p' : p2p) : Prop :=
   ps_nplayers p' = ps_nplayers p /\ ps_maxpred p' = ps_maxpred p /\ ps_sparse p' = ps_sparse p /\
   ps_disc_frame p' = ps_disc_frame p /\ ps_running p' = ps_running p /\ ps_kinds p' = ps_kinds p /\
   ps_spec_handles p' = ps_spec_handles p /\ ps_remotes p' = ps_remotes p /\
-  ps_spectators p' = ps_spectators p /\ ps_pending p' = ps_pending p.
+  ps_spectators p' = ps_spectators p /\ ps_pending p' = ps_pending p /\ ps_next_spec p' = ps_next_spec p.
 Lemma p_rest_refl : forall p, p_rest p p.
 Proof. intros p. unfold p_rest. repeat split. Qed.
 Lemma p_rest_trans : forall a b c, p_rest a b -> p_rest b c -> p_rest a c.
@@ -166,12 +166,33 @@ Qed.
 
 End ProgressA.
 
+(* the host's spectator broadcast: when there are spectators, the next frame to send is past the last
+   confirmed frame and not past any player's held inputs *)
+Definition spec_ok (p : p2p) (gs : list ghost) : Prop :=
+  ps_spectators p <> [] ->
+  0 <= ps_next_spec p /\ s_last_confirmed (ps_sync p) + 1 <= ps_next_spec p /\
+  Forall (fun g : ghost => ps_next_spec p <= hlen (fst g)) gs.
+
+Lemma spec_ok_grow : forall p gs p' gs',
+  spec_ok p gs -> ps_spectators p' = ps_spectators p -> ps_next_spec p' = ps_next_spec p ->
+  s_last_confirmed (ps_sync p') = s_last_confirmed (ps_sync p) ->
+  (forall h g', nth_error gs' h = Some g' -> exists g, nth_error gs h = Some g /\ hlen (fst g) <= hlen (fst g')) ->
+  spec_ok p' gs'.
+Proof.
+  intros p gs p' gs' H E1 E2 E3 Hg Hne. rewrite E1 in Hne. destruct (H Hne) as (A & B & C).
+  rewrite E2, E3. split; [exact A|]. split; [exact B|].
+  apply Forall_forall. intros g' Hin. apply In_nth_error in Hin. destruct Hin as (h & Hh).
+  destruct (Hg h g' Hh) as (g & Hg1 & Hg2). rewrite Forall_forall in C. pose proof (C g (nth_error_In _ _ Hg1)). lia.
+Qed.
+Lemma grow_refl : forall (gs : list ghost) h g', nth_error gs h = Some g' -> exists g, nth_error gs h = Some g /\ hlen (fst g) <= hlen (fst g').
+Proof. intros gs h g' H. exists g'. split; [exact H|lia]. Qed.
+
 (* ================= the queue-side session invariant ================= *)
 (* w = max_prediction, d = the input delay of the local players; gs = per player (history, low) *)
 Record QS (w d : Z) (p : p2p) (gs : list ghost) : Prop := {
   qs_w : 1 <= w /\ ps_maxpred p = w /\ s_maxpred (ps_sync p) = w;
   qs_d : 0 <= d /\ w + d + 3 <= QLEN;
-  qs_mode : ps_running p = true /\ ps_sparse p = false /\ ps_spectators p = [] /\ ps_disc_frame p = NULL;
+  qs_mode : ps_running p = true /\ ps_sparse p = false /\ ps_disc_frame p = NULL;
   qs_n : Z.of_nat (length gs) = ps_nplayers p /\ 0 < ps_nplayers p /\ length (ps_kinds p) = length gs /\
          length (ps_status p) = length gs;
   qs_conn : connected (ps_status p);
@@ -183,6 +204,7 @@ Record QS (w d : Z) (p : p2p) (gs : list ghost) : Prop := {
   qs_kinds : forall h k q gh, nth_error (ps_kinds p) h = Some k -> nth_error (s_queues (ps_sync p)) h = Some q ->
              nth_error gs h = Some gh -> KI (s_current (ps_sync p)) d k q (fst gh);
   qs_pending : forall h pi, assoc_get (ps_pending p) h = Some pi -> pi_frame pi = s_current (ps_sync p);
+  qs_spec : spec_ok p gs;
 }.
 
 Lemma QS_outgoing : forall w d p gs X Y, QS w d p gs -> QS w d (with_outgoing p X Y) gs.
@@ -198,6 +220,17 @@ Lemma nth_error_updz_same {A} : forall (l : list A) i x, (i < length l)%nat -> n
 Proof. induction l as [|y l IH]; intros [|i] x H; cbn in *; try lia; auto. apply IH. lia. Qed.
 Lemma nth_error_updz_other {A} : forall (l : list A) i j x, i <> j -> nth_error (updz l i x) j = nth_error l j.
 Proof. induction l as [|y l IH]; intros [|i] [|j] x H; cbn; auto; try congruence. Qed.
+
+Lemma grow_updz : forall (gs : list ghost) i hist low hist' low',
+  nth_error gs i = Some (hist, low) -> hlen hist <= hlen hist' ->
+  forall h g', nth_error (updz gs i (hist', low')) h = Some g' -> exists g, nth_error gs h = Some g /\ hlen (fst g) <= hlen (fst g').
+Proof.
+  intros gs i hist low hist' low' Hi Hle h g' H.
+  assert (Hl : (i < length gs)%nat) by (apply nth_error_Some; congruence).
+  destruct (Nat.eq_dec i h) as [<-|Hne].
+  - rewrite nth_error_updz_same in H by exact Hl. injection H as <-. exists (hist, low). split; [exact Hi|exact Hle].
+  - rewrite nth_error_updz_other in H by exact Hne. exists g'. split; [exact H|lia].
+Qed.
 
 Lemma assoc_get_put {A} : forall (l : list (Z * A)) k v k',
   assoc_get (assoc_put l k v) k' = if k =? k' then Some v else assoc_get l k'.
@@ -379,7 +412,7 @@ Lemma register_tail : forall w d p gs h v r q q' hist hist' low,
     hist_step d (ps_pending p) [h] gs gs'.
 Proof.
   intros w d p gs h v r q q' hist hist' low HQS Hcl Hh Hk Eq Eg Hpn Hfq I' D' U' R' F' P' Hlen' Hle Hreach pi kf Hpi Hv Hext Hkk p1 actual.
-  pose proof HQS as [Hw Hd Hmode Hn Hconn Hgos HQ Hlast Hfr Hkinds Hpe].
+  pose proof HQS as [Hw Hd Hmode Hn Hconn Hgos HQ Hlast Hfr Hkinds Hpe Hsok].
   set (c := s_current (ps_sync p)) in *. set (L := s_last_confirmed (ps_sync p)) in *.
   pose proof (QsI_length _ _ _ _ HQ) as Hlq.
   destruct Hn as (Hn1 & Hn2 & Hn3 & Hn4).
@@ -429,7 +462,8 @@ Proof.
         split; [congruence|]. split; [congruence|]. right. right. split; [exact Hlen'|exact U'].
       + rewrite nth_error_updz_other in B by exact Eh. rewrite nth_error_updz_other in C by exact Eh.
         exact (Hkinds _ _ _ _ A B C).
-    - exact Hpe. }
+    - exact Hpe.
+    - eapply spec_ok_grow; [exact Hsok|reflexivity|reflexivity|reflexivity|]. eapply grow_updz; eassumption. }
   assert (HQ4 : QS w d p4 gs').
   { eapply QS_out_only; [|exact O4]. rewrite HpA. apply QS_outgoing. exact HQA. }
   assert (Hs4 : ps_sync p4 = with_queues (ps_sync p) (updz (s_queues (ps_sync p)) (Z.to_nat h) q')).
@@ -564,10 +598,10 @@ Proof.
   - inversion Hall as [|? ? (Hh & Hk & pi & Hpe) Hall']; subst. inversion Hnd as [|? ? Hnin Hnd']; subst.
     destruct (register_step w d p gs h pi r HQS Hcl Hh Hk Hpe) as (p1 & gs1 & E1 & HQ1 & Hcl1 & Hr1 & Hc1 & HL1 & Hd1 & Ht1 & Hg1 & Hh1).
     rewrite E1.
-    assert (Hpend1 : ps_pending p1 = ps_pending p) by (destruct Hr1 as (_ & _ & _ & _ & _ & _ & _ & _ & _ & Hp1); exact Hp1).
+    assert (Hpend1 : ps_pending p1 = ps_pending p) by (destruct Hr1 as (_ & _ & _ & _ & _ & _ & _ & _ & _ & Hp1 & _); exact Hp1).
     assert (Hall1 : Forall (fun h => 0 <= h /\ nth_error (ps_kinds p1) (Z.to_nat h) = Some KLocal /\
                                      exists pi, assoc_get (ps_pending p1) h = Some pi) r).
-    { destruct Hr1 as (_ & _ & _ & _ & _ & Hk1 & _ & _ & _ & Hp1). rewrite Hk1, Hp1. exact Hall'. }
+    { destruct Hr1 as (_ & _ & _ & _ & _ & Hk1 & _ & _ & _ & Hp1 & _). rewrite Hk1, Hp1. exact Hall'. }
     destruct (IH w d p1 gs1 HQ1 Hcl1 Hnd' Hall1) as (p' & gs' & E & HQ' & Hcl' & Hr' & Hc' & HL' & Hd' & Hg' & Hh').
     exists p', gs'. split; [exact E|]. split; [exact HQ'|]. split; [exact Hcl'|].
     split; [eapply p_rest_trans; eassumption|]. split; [congruence|]. split; [congruence|].
@@ -600,9 +634,10 @@ Lemma QS_resync : forall w d p gs s' gs',
   (forall h k q' gh', nth_error (ps_kinds p) h = Some k -> nth_error (s_queues s') h = Some q' ->
                       nth_error gs' h = Some gh' -> KI (s_current s') d k q' (fst gh')) ->
   (forall h pi, assoc_get (ps_pending p) h = Some pi -> pi_frame pi = s_current s') ->
+  spec_ok (with_sync p s') gs' ->
   QS w d (with_sync p s') gs'.
 Proof.
-  intros w d p gs s' gs' [Hw Hd Hmode Hn Hconn Hgos HQ Hlast Hfr Hkinds Hpe] Hmp HQ' Hmap Hfr' Hk' Hp'.
+  intros w d p gs s' gs' [Hw Hd Hmode Hn Hconn Hgos HQ Hlast Hfr Hkinds Hpe Hsok] Hmp HQ' Hmap Hfr' Hk' Hp' Hsok'.
   assert (Hlen : length gs' = length gs).
   { apply (f_equal (@length Z)) in Hmap. rewrite !map_length in Hmap. exact Hmap. }
   constructor; cbn [with_sync ps_maxpred ps_sync ps_running ps_sparse ps_spectators ps_disc_frame ps_nplayers
@@ -618,6 +653,7 @@ Proof.
   - exact Hfr'.
   - exact Hk'.
   - exact Hp'.
+  - exact Hsok'.
 Qed.
 
 Lemma KI_transfer : forall c d k q q' hist,
@@ -707,24 +743,108 @@ Proof.
   inversion Hf; subst. constructor; [lia|]. apply IH. assumption.
 Qed.
 
+(* ---------- the broadcast of confirmed inputs to the spectators ---------- *)
+(* the inputs held for frame f, one per player *)
+Definition held_at (gs : list ghost) (f : Z) : list pinput := map (fun g : ghost => mkpi f (hval (fst g) f)) gs.
+
+Lemma confirmed_inputs_held : forall st qs gs c L f,
+  QsI c L qs gs -> connected st -> length st = length qs ->
+  Forall (fun g : ghost => snd g <= f < hlen (fst g)) gs ->
+  confirmed_inputs_go f qs st = Ok (held_at gs f).
+Proof.
+  induction st as [|s st IH]; intros qs gs c L f HQ Hcon Hlen Hin.
+  - destruct qs; [|discriminate]. inversion HQ; subst. reflexivity.
+  - destruct qs as [|q qs]; [discriminate|]. inversion HQ as [|? g ? gs' Hq HQ']; subst.
+    inversion Hcon as [|? ? Hs Hcon']; subst. inversion Hin as [|? ? Hg Hin']; subst.
+    cbn [confirmed_inputs_go]. rewrite Hs. cbn [andb].
+    unfold confirmed_input. rewrite (ri_slots _ _ _ (qi_ring _ _ _ _ _ Hq) f Hg). cbn [pi_frame]. rewrite Z.eqb_refl. cbn [res_bind].
+    rewrite (IH qs gs' c L f HQ' Hcon' ltac:(cbn in Hlen; lia) Hin'). reflexivity.
+Qed.
+
+Lemma with_next_spec_self : forall p, with_next_spec p (ps_next_spec p) = p.
+Proof. destruct p; reflexivity. Qed.
+Lemma with_next_spec_idem : forall p a b, with_next_spec (with_next_spec p a) b = with_next_spec p b.
+Proof. reflexivity. Qed.
+
+Lemma spec_send_progress : forall n p cf o gs c L,
+  QsI c L (s_queues (ps_sync p)) gs -> connected (ps_status p) ->
+  length (ps_status p) = length (s_queues (ps_sync p)) -> Z.of_nat (length gs) = ps_nplayers p ->
+  Forall (fun g : ghost => snd g <= ps_next_spec p /\ cf < hlen (fst g)) gs ->
+  n = Z.to_nat (cf - ps_next_spec p + 1) ->
+  exists p' o', spec_send_go n p cf o = Ok (p', o') /\
+    p' = with_next_spec p (Z.max (ps_next_spec p) (cf + 1)) /\
+    o_requests o' = o_requests o /\ o_remote_sends o' = o_remote_sends o /\
+    o_spec_sends o' = o_spec_sends o ++
+      (if existsb (fun b => b) (ps_spectators p)
+       then map (fun f => (f, held_at gs f)) (zrange_from (ps_next_spec p) n) else []).
+Proof.
+  induction n as [|n IH]; intros p cf o gs c L HQ Hcon Hlen Hng Hin Hn.
+  - cbn [spec_send_go zrange_from map]. exists p, o. split; [reflexivity|].
+    replace (Z.max (ps_next_spec p) (cf + 1)) with (ps_next_spec p) by lia.
+    split; [symmetry; apply with_next_spec_self|]. split; [reflexivity|]. split; [reflexivity|].
+    destruct (existsb _ _); rewrite app_nil_r; reflexivity.
+  - cbn [spec_send_go]. assert ((cf <? ps_next_spec p) = false) as -> by lia.
+    unfold confirmed_inputs.
+    rewrite (confirmed_inputs_held (ps_status p) _ gs c L (ps_next_spec p) HQ Hcon Hlen).
+    2:{ eapply Forall_impl; [|exact Hin]. cbv beta. intros g (A & B). lia. }
+    cbn [res_bind]. unfold held_at at 1 2. rewrite map_length.
+    assert ((Z.of_nat (length gs) =? ps_nplayers p) = true) as -> by lia. cbn [negb].
+    assert (forallb (fun i => (pi_frame i =? NULL) || (pi_frame i =? ps_next_spec p)) (map (fun g : ghost => mkpi (ps_next_spec p) (hval (fst g) (ps_next_spec p))) gs) = true) as ->.
+    { apply forallb_forall. intros i Hi. apply in_map_iff in Hi. destruct Hi as (g & <- & _). cbn [pi_frame]. rewrite Z.eqb_refl. apply orb_true_r. }
+    cbn [negb].
+    set (o1 := if existsb (fun b => b) (ps_spectators p) then add_ssend o (ps_next_spec p) (map (fun g : ghost => mkpi (ps_next_spec p) (hval (fst g) (ps_next_spec p))) gs) else o).
+    destruct (IH (with_next_spec p (ps_next_spec p + 1)) cf o1 gs c L) as (p' & o' & E & Hp' & R1 & R2 & R3).
+    + exact HQ.
+    + exact Hcon.
+    + exact Hlen.
+    + exact Hng.
+    + cbn [with_next_spec ps_next_spec]. eapply Forall_impl; [|exact Hin]. cbv beta. intros g (A & B). lia.
+    + cbn [with_next_spec ps_next_spec]. lia.
+    + exists p', o'. split; [exact E|]. cbn [with_next_spec ps_next_spec ps_spectators] in Hp', R3.
+      split; [rewrite Hp', with_next_spec_idem; replace (Z.max (ps_next_spec p + 1) (cf + 1)) with (Z.max (ps_next_spec p) (cf + 1)) by lia; reflexivity|].
+      subst o1. destruct (existsb (fun b => b) (ps_spectators p)); cbn [add_ssend o_requests o_remote_sends o_spec_sends] in *.
+      * split; [exact R1|]. split; [exact R2|]. rewrite R3. cbn [zrange_from map]. rewrite <- app_assoc. reflexivity.
+      * split; [exact R1|]. split; [exact R2|]. rewrite R3. reflexivity.
+Qed.
+
 Section ProgressB.
 Variable predict : Z -> Z.
 
-(* the first half of advance_rollback_frame: rollback, save, new confirmed frame *)
+Lemma QS_next_spec : forall w d p gs ns, QS w d p gs -> spec_ok (with_next_spec p ns) gs -> QS w d (with_next_spec p ns) gs.
+Proof.
+  intros w d p gs ns [A B C D E F G H I J K L] Hs.
+  constructor; cbn [with_next_spec ps_maxpred ps_sync ps_running ps_sparse ps_spectators ps_disc_frame ps_nplayers ps_kinds ps_status ps_remotes ps_pending]; assumption.
+Qed.
+
+(* what the broadcast step appends for the spectators: the frames from the old next_spec up to the
+   confirmed frame, each with the inputs held for it *)
+Definition spec_sent (p : p2p) (gs : list ghost) (cf : Z) : list (Z * list pinput) :=
+  match ps_spectators p with
+  | [] => []
+  | _ => if existsb (fun b => b) (ps_spectators p)
+         then map (fun f => (f, held_at gs f)) (zrange_from (ps_next_spec p) (Z.to_nat (cf - ps_next_spec p + 1))) else []
+  end.
+Definition next_spec_after (p : p2p) (cf : Z) : Z :=
+  match ps_spectators p with [] => ps_next_spec p | _ => Z.max (ps_next_spec p) (cf + 1) end.
+
+(* the first half of advance_rollback_frame: rollback, save, broadcast to the spectators, new confirmed frame *)
 Lemma rollback_confirm_progress : forall p gs g w d o,
   QS w d p gs -> JI w p g -> Forall (fun c => cs_last c < I32MAX) (ps_status p) ->
-  exists cf p1 o1 s3 gs3,
+  exists cf p1 o1 p2 o2 s3 gs3,
     confirmed_frame p = Ok cf /\
     handle_rollback_and_save predict p cf o = Ok (p1, o1) /\ p1 = with_sync p (ps_sync p1) /\
+    send_confirmed_inputs_to_spectators p1 cf o1 = Ok (p2, o2) /\
+    p2 = with_next_spec p1 (next_spec_after p cf) /\ o_requests o2 = o_requests o1 /\
+    o_spec_sends o2 = o_spec_sends o1 ++ spec_sent p gs cf /\
     set_last_confirmed_frame (ps_sync p1) cf false = Ok s3 /\
-    QS w d (with_sync p s3) gs3 /\ all_clean (s_queues s3) /\ map fst gs3 = map fst gs /\
+    QS w d (with_sync p2 s3) gs3 /\ all_clean (s_queues s3) /\ map fst gs3 = map fst gs /\
     s_current s3 = s_current (ps_sync p) /\
     Forall2 (fun q q' => q_pred q' = q_pred q /\ q_first_incorrect q' = q_first_incorrect q) (s_queues (ps_sync p1)) (s_queues s3) /\
     s_current (ps_sync p1) = s_current (ps_sync p).
 Proof.
   intros p gs g w d o HQS HJI Hbnd.
-  pose proof HQS as [Hw Hd Hmode Hn Hconn Hgos HQ Hlast Hfr Hkinds Hpe].
-  destruct Hw as (Hw1 & Hw2 & Hw3). destruct Hmode as (Hrun & Hsp & Hspec & Hdf).
+  pose proof HQS as [Hw Hd Hmode Hn Hconn Hgos HQ Hlast Hfr Hkinds Hpe Hsok].
+  destruct Hw as (Hw1 & Hw2 & Hw3). destruct Hmode as (Hrun & Hsp & Hdf).
   destruct Hn as (Hn1 & Hn2 & Hn3 & Hn4). destruct Hfr as (HfL & Hfc & Hfw).
   set (c := s_current (ps_sync p)) in *. set (L := s_last_confirmed (ps_sync p)) in *.
   pose proof (QsI_length _ _ _ _ HQ) as Hlq.
@@ -741,6 +861,38 @@ Proof.
   fold c in HQ1, Hc1, Hidle1. fold L in HQ1, HL1.
   destruct (handle_rollback_exec predict p cf o p1 o1 g w (c - 1) Er Hsp ltac:(lia) Jm Jfr Hfc ltac:(lia) Jcells)
     as (_ & _ & _ & _ & _ & _ & _ & _ & _ & _ & _ & Hmp1 & _).
+  (* the broadcast *)
+  assert (Hf1 : ps_spectators p1 = ps_spectators p /\ ps_next_spec p1 = ps_next_spec p /\ ps_status p1 = ps_status p /\ ps_nplayers p1 = ps_nplayers p)
+    by (rewrite Hshape; repeat split).
+  destruct Hf1 as (Hsp1 & Hns1 & Hst1 & Hnp1).
+  assert (Hsend : exists p2 o2, send_confirmed_inputs_to_spectators p1 cf o1 = Ok (p2, o2) /\
+            p2 = with_next_spec p1 (next_spec_after p cf) /\ o_requests o2 = o_requests o1 /\
+            o_spec_sends o2 = o_spec_sends o1 ++ spec_sent p gs cf /\
+            spec_ok (with_next_spec p (next_spec_after p cf)) gs /\
+            (ps_spectators p <> [] -> cf + 1 <= next_spec_after p cf)).
+  { unfold send_confirmed_inputs_to_spectators, spec_sent, next_spec_after. rewrite Hsp1.
+    destruct (ps_spectators p) as [|b bs] eqn:Esp.
+    - exists p1, o1. split; [reflexivity|]. split; [rewrite <- Hns1; symmetry; apply with_next_spec_self|].
+      split; [reflexivity|]. split; [rewrite app_nil_r; reflexivity|]. split; [|intros X; congruence].
+      intros X. cbn [with_next_spec ps_spectators] in X. congruence.
+    - destruct (Hsok ltac:(rewrite Esp; discriminate)) as (S1 & S2 & S3). fold L in S2.
+      destruct (spec_send_progress (Z.to_nat (cf - ps_next_spec p1 + 1)) p1 cf o1 gs c L HQ1) as (p2 & o2 & E2 & Hp2 & R1 & R2 & R3).
+      + rewrite Hst1. exact Hconn.
+      + rewrite Hst1. pose proof (QsI_length _ _ _ _ HQ1). lia.
+      + rewrite Hnp1. exact Hn1.
+      + rewrite Hns1. apply Forall_forall. intros g0 Hg0.
+        rewrite Forall_forall in Hcfg. pose proof (Hcfg g0 Hg0) as Hc0.
+        apply In_nth_error in Hg0. destruct Hg0 as (h & Hh).
+        destruct (nth_error_some_len (s_queues (ps_sync p1)) gs h g0 (QsI_length _ _ _ _ HQ1) Hh) as (q1 & Hq1).
+        pose proof (Forall2_nth _ _ _ _ _ _ HQ1 Hq1 Hh) as Hqi. cbv beta in Hqi.
+        destruct (qi_low _ _ _ _ _ Hqi) as (Lw1 & _). split; lia.
+      + reflexivity.
+      + rewrite Hns1 in *. rewrite Hsp1 in R3.
+        exists p2, o2. split; [exact E2|]. split; [exact Hp2|]. split; [exact R1|]. split; [exact R3|].
+        split; [|intros _; lia].
+        intros _. cbn [with_next_spec ps_next_spec ps_sync]. fold L. split; [lia|]. split; [lia|].
+        apply Forall_forall. intros g0 Hg0. rewrite Forall_forall in S3, Hcfg. pose proof (S3 g0 Hg0). pose proof (Hcfg g0 Hg0). lia. }
+  destruct Hsend as (p2 & o2 & Es & Hp2 & Ho2 & Hsent & Hsok2 & Hns2).
   (* the new confirmed frame *)
   destruct (confirm_progress predict (ps_sync p1) gs cf) as (s3 & E3 & HL3 & Hsf3 & (gs3 & HQ3 & Hmap3) & Hcl3 & Hsu3 & Hpr3).
   { rewrite Hc1, HL1. exact HQ1. }
@@ -749,18 +901,22 @@ Proof.
   { rewrite Hc1. eapply Forall_impl; [|exact Hcfg]. cbv beta. intros a Ha. lia. }
   rewrite Hc1 in HL3, HQ3.
   destruct Hsf3 as ((Hmp3 & _) & Hc3). rewrite Hc1 in Hc3.
-  exists cf, p1, o1, s3, gs3.
-  split; [exact Ecf|]. split; [exact Er|]. split; [exact Hshape|]. split; [exact E3|].
+  exists cf, p1, o1, p2, o2, s3, gs3.
+  split; [exact Ecf|]. split; [exact Er|]. split; [exact Hshape|]. split; [exact Es|]. split; [exact Hp2|]. split; [exact Ho2|].
+  split; [exact Hsent|]. split; [exact E3|].
   split; [|split; [exact Hcl3|split; [exact Hmap3|split; [exact Hc3|split; [|exact Hc1]]]]].
   2:{ clear - Hpr3 Hcl1 Hcl3. unfold all_clean in *. revert Hcl1 Hcl3.
       induction Hpr3 as [|q q' l l' H1 H2 IH]; intros A B; [constructor|].
       inversion A; inversion B; subst. constructor; [split; [exact H1|congruence]|apply IH; assumption]. }
-  apply (QS_resync w d p gs s3 gs3 HQS).
-  - rewrite Hmp3, Hmp1. symmetry. exact Hw3.
+  assert (Hbase : with_sync p2 s3 = with_sync (with_next_spec p (next_spec_after p cf)) s3).
+  { rewrite Hp2, Hshape. reflexivity. }
+  rewrite Hbase.
+  apply (QS_resync w d (with_next_spec p (next_spec_after p cf)) gs s3 gs3 (QS_next_spec _ _ _ _ _ HQS Hsok2)).
+  - cbn [with_next_spec ps_sync]. rewrite Hmp3, Hmp1. symmetry. exact Hw3.
   - rewrite Hc3, HL3. exact HQ3.
   - apply map_fst_hlens. exact Hmap3.
   - rewrite Hc3, HL3. lia.
-  - intros h k q3 gh3 A B C. rewrite Hc3.
+  - cbn [with_next_spec ps_kinds]. intros h k q3 gh3 A B C. rewrite Hc3.
     destruct (map_fst_nth gs gs3 h gh3 Hmap3 C) as (gh & Cg & Efst). rewrite <- Efst.
     pose proof (QsI_length _ _ _ _ HQ1) as Hlq1.
     destruct (nth_error_some_len (s_queues (ps_sync p)) gs h gh ltac:(lia) Cg) as (q & Bq).
@@ -773,7 +929,13 @@ Proof.
     apply (KI_transfer c d k q q1); [exact HK|exact D1|exact U1|].
     intros -> X. apply (Hidle1 h q gh q1 Bq Cg Bq1); [|exact X].
     eapply KI_local_reach; [|exact HK]. lia.
-  - intros h pi X. rewrite Hc3. exact (Hpe h pi X).
+  - cbn [with_next_spec ps_pending]. intros h pi X. rewrite Hc3. exact (Hpe h pi X).
+  - intros Hne. cbn [with_sync with_next_spec ps_spectators ps_next_spec ps_sync] in Hne |- *. rewrite HL3.
+    destruct (Hsok2 Hne) as (S1 & S2 & S3). cbn [with_next_spec ps_next_spec ps_sync] in S1, S2, S3. specialize (Hns2 Hne).
+    split; [exact S1|]. split; [lia|].
+    apply Forall_forall. intros g3 Hg3. apply In_nth_error in Hg3. destruct Hg3 as (h & Hh).
+    destruct (map_fst_nth gs gs3 h g3 Hmap3 Hh) as (gh & Cg & Efst). rewrite <- Efst.
+    rewrite Forall_forall in S3. exact (S3 gh (nth_error_In _ _ Cg)).
 Qed.
 
 (* all local players are registered for the current frame *)
@@ -787,26 +949,26 @@ Lemma advance_rollback_progress : forall p gs g w d o,
 Proof.
   intros p gs g w d o HQS HJI Hbnd Hpend.
   destruct (rollback_confirm_progress p gs g w d o HQS HJI Hbnd)
-    as (cf & p1 & o1 & s3 & gs3 & Ecf & Er & Hshape & E3 & HQS3 & Hcl3 & Hmap3 & Hc3 & _ & _).
-  unfold advance_rollback_frame. rewrite Ecf. cbn [res_bind]. rewrite Er. cbn [res_bind].
-  assert (Hspec1 : ps_spectators p1 = []).
-  { rewrite Hshape. cbn. destruct (qs_mode _ _ _ _ HQS) as (_ & _ & X & _). exact X. }
-  unfold send_confirmed_inputs_to_spectators. rewrite Hspec1. cbn [res_bind].
-  assert (Hsp1 : ps_sparse p1 = false).
-  { rewrite Hshape. cbn. destruct (qs_mode _ _ _ _ HQS) as (_ & X & _ & _). exact X. }
-  rewrite Hsp1, E3. cbn [res_bind].
-  assert (Hp3 : with_sync p1 s3 = with_sync p s3) by (rewrite Hshape; apply with_sync_idem).
-  rewrite Hp3. set (p3 := with_sync p s3) in *.
+    as (cf & p1 & o1 & p2 & o2 & s3 & gs3 & Ecf & Er & Hshape & Es & Hp2 & _ & _ & E3 & HQS3 & Hcl3 & Hmap3 & Hc3 & _ & _).
+  unfold advance_rollback_frame. rewrite Ecf. cbn [res_bind]. rewrite Er. cbn [res_bind]. rewrite Es. cbn [res_bind].
+  assert (Hf2 : ps_sparse p2 = false /\ ps_sync p2 = ps_sync p1 /\ local_handles (with_sync p2 s3) = local_handles p /\
+                ps_pending (with_sync p2 s3) = ps_pending p).
+  { rewrite Hp2, Hshape. destruct (qs_mode _ _ _ _ HQS) as (_ & X & _). repeat split. exact X. }
+  destruct Hf2 as (Hsp2 & Hsy2 & Hlh3 & Hpe3).
+  rewrite Hsp2, Hsy2, E3. cbn [res_bind].
+  set (p3 := with_sync p2 s3) in *.
+  assert (Hpend3 : forall h, In h (local_handles p3) -> exists pi, assoc_get (ps_pending p3) h = Some pi).
+  { intros h Hin. rewrite Hpe3. apply Hpend. rewrite <- Hlh3. exact Hin. }
   (* register the local inputs *)
   pose proof (QS_nplayers _ _ _ _ HQS3) as Hnp3.
   assert (Hall : Forall (fun h => 0 <= h /\ nth_error (ps_kinds p3) (Z.to_nat h) = Some KLocal /\
                                    exists pi, assoc_get (ps_pending p3) h = Some pi) (local_handles p3)).
   { apply Forall_forall. intros h Hin. pose proof Hin as Hin2. apply (local_handles_spec p3 h Hnp3) in Hin2.
-    destruct Hin2 as (Hr & Hk). split; [lia|]. split; [exact Hk|]. apply Hpend. exact Hin. }
+    destruct Hin2 as (Hr & Hk). split; [lia|]. split; [exact Hk|]. apply Hpend3. exact Hin. }
   destruct (register_go_progress (local_handles p3) w d p3 gs3 HQS3 Hcl3 (local_handles_nodup p3) Hall)
     as (p4 & gs4 & E4 & HQS4 & Hcl4 & Hrest4 & Hc4 & HL4 & Hdone4 & _).
   unfold register_local_inputs. rewrite E4. cbn [res_bind].
-  destruct (send_ready_outgoing_ok p4 o1) as (p5 & o5 & E5 & O5). rewrite E5. cbn [res_bind].
+  destruct (send_ready_outgoing_ok p4 o2) as (p5 & o5 & E5 & O5). rewrite E5. cbn [res_bind].
   pose proof (QS_out_only _ _ _ _ _ HQS4 O5) as HQS5.
   assert (Hs5 : ps_sync p5 = ps_sync p4) by (rewrite O5; reflexivity).
   assert (Hst5 : ps_status p5 = ps_status p4) by (rewrite O5; reflexivity).
@@ -853,6 +1015,7 @@ Proof.
     + rewrite D1, U1. exact HK.
     + exact HK.
   - intros h pi X. discriminate X.
+  - eapply spec_ok_grow; [exact (qs_spec _ _ _ _ HQS5)|reflexivity|reflexivity|cbn; rewrite Hs5; reflexivity|apply grow_refl].
 Qed.
 End ProgressB.
 
@@ -864,13 +1027,14 @@ Lemma QS_same_queues : forall w d p gs s',
   s_current s' = s_current (ps_sync p) -> s_last_confirmed s' = s_last_confirmed (ps_sync p) ->
   QS w d (with_sync p s') gs.
 Proof.
-  intros w d p gs s' HQS Hm Hq Hc HL. pose proof HQS as [A B C D E F G H I J K].
+  intros w d p gs s' HQS Hm Hq Hc HL. pose proof HQS as [A B C D E F G H I J K Ls].
   apply (QS_resync w d p gs s' gs HQS Hm).
   - rewrite Hq, Hc, HL. exact G.
   - reflexivity.
   - rewrite Hc, HL. exact I.
   - rewrite Hq, Hc. exact J.
   - rewrite Hc. exact K.
+  - eapply spec_ok_grow; [exact Ls|reflexivity|reflexivity|exact HL|apply grow_refl].
 Qed.
 
 (* one advance_frame call of a session in C01's space never fails, and re-establishes the invariant *)
@@ -882,7 +1046,7 @@ Proof.
   intros p gs g w d HQS HJI Hbnd.
   assert (Hgoal : exists p' o r gs', advance predict p = Ok (p', o, r) /\ QS w d p' gs').
   { pose proof HQS as [Hw Hd Hmode Hn Hconn Hgos HQ Hlast Hfr Hkinds Hpe].
-    destruct Hw as (Hw1 & Hw2 & Hw3). destruct Hmode as (Hrun & Hsp & Hspec & Hdf).
+    destruct Hw as (Hw1 & Hw2 & Hw3). destruct Hmode as (Hrun & Hsp & Hdf).
     unfold advance. rewrite Hrun. cbn [negb].
     destruct (forallb _ (local_handles p)) eqn:Efa; cbn [negb].
     2:{ exists p, out0, AInvalidRequest, gs. split; [reflexivity|exact HQS]. }
@@ -932,7 +1096,7 @@ Lemma remote_progress : forall w d p gs pl f v e,
       s_current (ps_sync p') = s_current (ps_sync p).
 Proof.
   intros w d p gs pl f v e HQS Hpl Hk Hf Hcap.
-  pose proof HQS as [Hw Hd Hmode Hn Hconn Hgos HQ Hlast Hfr Hkinds Hpe].
+  pose proof HQS as [Hw Hd Hmode Hn Hconn Hgos HQ Hlast Hfr Hkinds Hpe Hsok].
   destruct Hn as (Hn1 & Hn2 & Hn3 & Hn4).
   pose proof (QsI_length _ _ _ _ HQ) as Hlq.
   assert (Hhl : (Z.to_nat pl < length gs)%nat) by lia.
@@ -983,6 +1147,7 @@ Proof.
     + rewrite nth_error_updz_other in B by exact Eh. rewrite nth_error_updz_other in C by exact Eh.
       exact (Hkinds _ _ _ _ A B C).
   - exact Hpe.
+  - eapply spec_ok_grow; [exact Hsok|reflexivity|reflexivity|reflexivity|]. eapply grow_updz; [exact Eg|rewrite hlen_app; lia].
 Qed.
 
 Lemma local_progress : forall w d p gs h v,
@@ -1050,14 +1215,14 @@ Qed.
 Definition players_only (kinds : list pkind) : Prop :=
   Forall (fun k => match k with KSpectator _ => False | _ => True end) kinds.
 
-Lemma QS_start : forall n w d kinds eps,
+Lemma QS_start : forall n w d kinds eps nspec,
   1 <= w -> 0 <= d -> w + d + 3 <= QLEN -> 0 < n -> Z.of_nat (length kinds) = n -> players_only kinds ->
-  QS w d (session_start n w false d kinds eps 0) (repeat ([], 0) (Z.to_nat n)).
+  QS w d (session_start n w false d kinds eps nspec) (repeat ([], 0) (Z.to_nat n)).
 Proof.
-  intros n w d kinds eps Hw Hd Hcap Hn Hlen Hpl.
+  intros n w d kinds eps nspec Hw Hd Hcap Hn Hlen Hpl.
   unfold session_start, p2p_new, sync_new.
   constructor; cbn [with_running with_queues ps_maxpred ps_sync ps_running ps_sparse ps_spectators ps_disc_frame ps_nplayers
-                    ps_kinds ps_status ps_remotes ps_pending s_maxpred s_current s_last_confirmed s_queues repeat].
+                    ps_kinds ps_status ps_remotes ps_pending s_maxpred s_current s_last_confirmed s_queues].
   - split; [exact Hw|split; reflexivity].
   - split; assumption.
   - assert (((w =? 0) && false) = false) as -> by apply andb_false_r. repeat split.
@@ -1078,6 +1243,8 @@ Proof.
     + split; [reflexivity|]. unfold hlen. cbn. reflexivity.
     + unfold players_only in Hpl. rewrite Forall_forall in Hpl. exact (Hpl _ (nth_error_In _ _ A)).
   - intros h pi X. discriminate X.
+  - intros _. cbn [with_running ps_next_spec ps_sync with_queues s_last_confirmed]. split; [lia|]. split; [unfold NULL; lia|].
+    apply Forall_forall. intros g Hg. pose proof (hlen_nonneg (fst g)). lia.
 Qed.
 
 (* ================= runs inside C01's space ================= *)
